@@ -167,11 +167,11 @@ def applyOp (s : WState) (name : String) (fs : List (String × String)) (lineNo 
       | .ok (w, c) => s.commit w c ["OBS ok"]
       | .error e => fail e
     | "apop" =>
-      match s.w.arrPop p c with
+      match s.w.arrPopKeep p (((fnat fs "keep").bind (AList.find? s.handles)).toList) c with
       | .ok (es, w, c) => s.commit w c ["OBS ok:" ++ "|".intercalate (es.map (s.renderOld s.w))]
       | .error e => fail e
     | "mpop" =>
-      match s.w.mapPop p c with
+      match s.w.mapPopKeep p (((fnat fs "keep").bind (AList.find? s.handles)).toList) c with
       | .ok (kvs, w, c) =>
         s.commit w c ["OBS ok:" ++ "|".intercalate (kvs.map (fun kv => Dump.mkey kv.1 ++ "," ++ s.renderOld s.w kv.2))]
       | .error e => fail e
@@ -213,6 +213,10 @@ def stepLine (s : WState) (line : String) (lineNo : Nat) : WState :=
       else s.note s!"line {lineNo}: FULL differs\n  model: {mine}\n  impl : {theirs}"
   | "COMMIT" :: _ => { s with pending := ["OBS ok"] }
   | "REOPEN" :: _ => { s with w := s.w.reopen }
+  | "FORGET" :: rest =>
+    match (fnat (fields rest) "h").bind (AList.find? s.handles) with
+    | some vid => { s with w := World.forget s.w.fuelOf s.w vid }
+    | none => s.note s!"line {lineNo}: FORGET for unknown handle"
   | kind :: _ =>
     if kind == "OBS" || kind == "EFF" || kind == "SLB" then
       match s.pending with
